@@ -106,6 +106,34 @@ func main() {
 					}
 					return true
 				})
+				if *set == 6 {
+					// a conjunct or disjunct dropped; an error result replaced by nil
+					ast.Inspect(fd.Body, func(n ast.Node) bool {
+						switch x := n.(type) {
+						case *ast.BinaryExpr:
+							if x.Op == token.LAND || x.Op == token.LOR {
+								a, b := off(x.Pos()), off(x.End())
+								l := string(src[off(x.X.Pos()):off(x.X.End())])
+								rr := string(src[off(x.Y.Pos()):off(x.Y.End())])
+								pos := pkg.Fset.Position(x.Pos()).Line
+								out = append(out, mutant{File: rel, Line: pos, Func: name, Op: "drop-right " + x.Op.String(), Start: a, End: b, Orig: string(src[a:b]), Repl: l})
+								out = append(out, mutant{File: rel, Line: pos, Func: name, Op: "drop-left " + x.Op.String(), Start: a, End: b, Orig: string(src[a:b]), Repl: rr})
+							}
+						case *ast.ReturnStmt:
+							for _, res := range x.Results {
+								id, ok := res.(*ast.Ident)
+								if !ok || id.Name == "nil" {
+									continue
+								}
+								if tv, ok := info.Types[res]; ok && tv.Type != nil && tv.Type.String() == "error" {
+									add("return "+id.Name+"→nil", id, "nil")
+								}
+							}
+						}
+						return true
+					})
+					continue
+				}
 				if *set == 5 {
 					ast.Inspect(fd.Body, func(n ast.Node) bool {
 						call, ok := n.(*ast.CallExpr)
